@@ -4,10 +4,14 @@ set -eu
 ROOT="$(cd "$(dirname "$0")" && pwd)"
 export CARGO_NET_OFFLINE=true
 cd "$ROOT/harness"
-cargo build --offline --profile verifrel -p vcheck --target-dir "$ROOT/harness/target-rel" &
+# three builds: main (hooks + assertions), release without hooks (as shipped), release with hooks (for C07 / C17)
+cargo build --offline --profile verifrel -p vcheck --no-default-features --target-dir "$ROOT/harness/target-rel-nohooks" &
 rel=$!
+cargo build --offline --profile verifrel -p vcheck --target-dir "$ROOT/harness/target-rel-hooks" &
+relh=$!
 cargo build --offline --profile verif -p vcheck
 wait $rel
+wait $relh
 if [ -f shim/iofault.c ]; then
   gcc -O2 -fPIC -shared -o shim/iofault.so shim/iofault.c -ldl
 fi
